@@ -8,6 +8,7 @@ CONSTANTS
   ResetMax = 1
   ErrorResetMax = 3
   LazyClient = TRUE
+  OldPushBugs = FALSE
   OldIdleCheck = FALSE
   NPeer = 12
   NAppX = 0
